@@ -55,6 +55,12 @@ Theorem C05_message_until_stream_failure : forall pre k post,
 Proof. exact message_until_fail. Qed.
 Print Assumptions C05_message_until_stream_failure.
 
+(* a streamed object (also one of a derived class passed through a base reference, a non-copyable one, one whose copies
+   would look different) contributes exactly what its own operator<< writes *)
+Theorem C05_object_item_as_string : forall k s x, ss_put x (IObj k s) = ss_put x (IStr s).
+Proof. exact object_item_as_string. Qed.
+Print Assumptions C05_object_item_as_string.
+
 (* exactly once iff enabled: member i of the sequence gets the record once iff (sv >= minimum and the filter accepts) *)
 Theorem C05_sink_exactly_once_iff_enabled : forall cfg th lg sv tag its i,
   count (is_sink_of i) (exec_one cfg th lg sv tag its)
